@@ -9,7 +9,9 @@ ops (JSON lists):
   ['log', tag]                      record logical time (and beats) here
   ['wait', d]                       yield d
   ['yield', v]                      yield a non-number (stops rescheduling)
-  ['play', r, clock, quant]         clock: None | 'sys' | 'app' | int index
+  ['play', r, clock, quant[, how]]  clock: None | 'sys' | 'app' | int index;
+                                    how: 'deco' (@routine.run) | 'run'
+                                    (Routine.run) | absent (r.play)
   ['sched', clock, delta, r]        clock.sched(delta, routine r)
   ['pause', r] ['resume', r] ['stop', r]
   ['tempo', c, v] ['beats', c, v] ['beats_add', c, d] ['meter', c, v]
@@ -152,7 +154,20 @@ class Interp:
             q = op[3]
             if isinstance(q, list):
                 q = tuple(q)
-            r.play(self.clock_of(op[2]), q)
+            how = op[4] if len(op) > 4 else None
+            if how in ('deco', 'run') and r.state == r.State.Init \
+                    and not self.prog['routines'][op[1]].get('nest'):
+                # the convenience spellings: @routine.run(clock, quant) /
+                # Routine.run(func, clock, quant) create and play at once
+                stm = self.stm
+                fn = r.func
+                if how == 'deco':
+                    new = stm.routine.run(self.clock_of(op[2]), q)(fn)
+                else:
+                    new = stm.Routine.run(fn, self.clock_of(op[2]), q)
+                self.routines[op[1]] = new
+            else:
+                r.play(self.clock_of(op[2]), q)
         elif k == 'sched':
             # clock.sched(delta, routine): delta in the target clock's unit
             # from the caller's logical time
